@@ -630,7 +630,8 @@ class C11(Prop):
                 continue
             mid = (xa + xb) / 2
             pts = [xa, xb, mid, mid - (xb - xa) * 1e-4, mid + (xb - xa) * 1e-4, xa + (xb - xa) * 0.25, xa + (xb - xa) * 0.75,
-                   xa + (xb - xa) * rng.random(), xa + (xb - xa) * 0.4999, xa + (xb - xa) * 0.5001]
+                   xa + (xb - xa) * rng.random(), xa + (xb - xa) * 0.4999, xa + (xb - xa) * 0.5001,
+                   mid - (xb - xa) * 3e-7, mid + (xb - xa) * 3e-7, mid - (xb - xa) * 2e-9, mid + (xb - xa) * 2e-9]
             for x in pts:
                 bitsx = f32_bits(x) if k == "f" else f64_bits(x)
                 xr = bits_f32(bitsx) if k == "f" else bits_f64(bitsx)
@@ -795,6 +796,11 @@ class C10(Prop):
             for c in classes[1:]:
                 for _ in range(1 if ctx.tier == "quick" else 20):
                     ops.append("ROUNDTRIP " + g.gen_msg(n, "valid", msm_force=c))
+            # the boundary shapes: 64 satellites x 1 signal, 63 x 1, 32 x 2, 1 satellite x every signal of the constellation,
+            # as many satellites as fit with every signal (all cells present)
+            nt = len(g.sig[g.layouts[n]["fields"][-1][1]["gnss"]]) if g.layouts[n]["k"] == "struct" else 4
+            for ns_, ng_ in ((64, 1), (63, 1), (32, 2), (1, nt), (64 // nt, nt), (21, 3)):
+                ops.append("ROUNDTRIP " + g.gen_msg(n, "valid", msm_force=("shape", ns_, ng_)))
         return ops
 
     def proj(self, op, res):
@@ -1185,6 +1191,9 @@ class C17(Prop):
                         if not res.startswith("ERR"):
                             return "text of %d characters was not refused" % len(kept)
                         return None
+            if res.startswith("ERR BufferOverflow") and num == 1029:
+                kept = [v for v in expect.values()][-1]
+                return "a text that fits the field (%d characters, %d bytes) was refused: %s" % (len(kept), sum(utf8_len(c) for c in kept), res[:40])
             if not res.startswith("OK ") or " D1 " not in res:
                 return None
             d1 = vt.parse_msg(res.split(" D1 ")[1].split(" ")[0])
@@ -1280,6 +1289,9 @@ class C18(Prop):
                 elif t[0] == "SIGSIG":
                     sigs[(t[1], int(t[2]))] = (res[i], i)
                 elif t[0] == "SIGCMP":
+                    if res[i].split(" ")[0] not in ("L", "G", "E"):
+                        out.append((i, "%s: comparing descriptors (%s,%s) and (%s,%s) gave %s" % (t[1], t[2], t[3], t[4], t[5], res[i][:30])))
+                        continue
                     cmpd[(t[1], (int(t[2]), int(t[3])), (int(t[4]), int(t[5])))] = (res[i], i)
             # bijection and range
             by_g = {}
@@ -1431,12 +1443,31 @@ class C02(Prop):
         for _ in range(100 if ctx.tier == "quick" else 5000):
             s, _ = gf.gen_stream(rng)
             ops.append("ITER %s" % hx(s))
+        # canonical frames of the three hand-written bias codecs with every boundary bit pattern of the bias field (all finite?)
+        for o in bias_pattern_ops(ctx, full=False, n_random=60 if ctx.tier == "quick" else 3000):
+            ops.append("DECODE " + o.split(" ")[1] + " #biasframe")
+        # 1029 frames whose text is valid UTF-8 of every kind: one- to four-byte characters, every plane that has its own
+        # lead/continuation pattern (1, 2, 3, 14, 15, 16), alone and mixed
+        if 1029 in g.layouts:
+            kinds = [[0x41], [0xe9], [0x4e65], [0x1f600], [0x20bb7], [0x30000], [0xe0001], [0xf0000], [0x10ffff], [0x10000],
+                     [0x41, 0x20bb7, 0xe9], [0x1f6f0, 0x4e65, 0x10ffff, 0x7f, 0x80, 0x7ff, 0x800, 0xffff]]
+            for cps in kinds:
+                for rep in (1, 3, 20):
+                    text = "".join(chr(c) for c in cps * rep).encode("utf-8")
+                    if len(text) > 255 or len(cps) * rep > 127:
+                        continue
+                    b = set_bits(bytes(9 + len(text)), 0, 12, 1029)
+                    b = set_bits(b, 57, 7, len(cps) * rep)
+                    b = set_bits(b, 64, 8, len(text))
+                    ops.append("DECODE %s #text1029" % hx(mkframe(b[:9] + text)))
         return ops
 
     def proj(self, op, res):
         return res
 
     def probe(self, op, res, ctx):
+        if op.endswith("#text1029") and not res.startswith("VMsg1029("):
+            return "a 1029 frame with valid UTF-8 text decoded to %s" % res[:40]
         if res.startswith("PANIC") or res.startswith("HANG") or res.startswith("CRASH") or "PANIC" in res.split(" ")[:1]:
             return "decoding %s: %s" % (op.split(" ")[0], res[:20])
         if op.startswith("DECODE"):
@@ -1619,6 +1650,13 @@ class C01(Prop):
                     break
         # canonical frames of the three hand-written bias codecs, every boundary bit pattern of the bias field
         ops += bias_pattern_ops(ctx, full=False, n_random=100 if q else 3000)
+        # 1230 lists that repeat a signal (the encoder accepts them; the frame then carries more biases than mask bits):
+        # still "a message of the same type, never Corrupt", and decoding twice agrees
+        if 1230 in g.layouts:
+            hdr = vt.parse_msg(g.gen_msg(1230, "valid"))[2][1][:-1]
+            for keys in ([(1, 67), (2, 80), (2, 80)], [(1, 67), (1, 67)], [(2, 67)] * 4, [(1, 80), (1, 67), (1, 80), (2, 67)]):
+                ents = [("T", [("G", b0, c0), ("f", f32_bits(0.02 * (i + 1)))]) for i, (b0, c0) in enumerate(keys)]
+                ops.append("ROUNDTRIP " + vt.show_msg(("Msg", 1230, ("T", hdr + [("L", ents)]))))
         return ops
 
     def proj(self, op, res):
@@ -1781,6 +1819,10 @@ class C15(Prop):
                 for _ in range(4):
                     ops.append("ROUNDTRIP %s #str" % g.gen_msg(n, "valid"))
                 enc_full.append(("ENCODE " + g.gen_msg(n, "valid"), n))
+        # the free text of 1029 at its two capacities (255 bytes, 127 characters) and just below
+        if 1029 in g.layouts:
+            for cps, tg in (([0x4e65] * 85, "255b"), ([0x4e65] * 84 + [0xe9], "254b"), ([0xe9] * 126 + [0x20ac], "255b"), ([0x61] * 127, "127c"), ([0xe9] * 127, "254b"), ([0x1f600] * 63 + [0x4e65], "255b")):
+                ops.append("ROUNDTRIP VMsg1029(T{i1,i2,i3,C%s}) #text:%s" % (".".join(map(str, cps)), tg))
         r = ctx.run_impl([o for o, _ in enc_full], "rel", "c15a")
         for (o, n), x in zip(enc_full, r):
             if not x.startswith("OK "):
@@ -1822,6 +1864,14 @@ class C15(Prop):
                 return None if res.startswith("VCorrupt") else "a frame whose count field exceeds the capacity (%s) decoded to %s" % (tag, res[:30])
             if tag.startswith("trunc"):
                 return None if res.startswith("VCorrupt") else "a frame whose body is shorter than its count implies decoded to %s" % res[:30]
+            return None
+        if toks[0] == "ROUNDTRIP" and tag.startswith("text:"):
+            if not res.startswith("OK ") or " D1 VMsg1029(" not in res:
+                return "a 1029 text at its capacity (%s) does not encode and decode: %s" % (tag[5:], res[:40])
+            msg = vt.parse_msg(toks[1])
+            d1 = vt.parse_msg(res.split(" D1 ")[1].split(" ")[0])
+            if d1[2][1][-1][1] != msg[2][1][-1][1]:
+                return "a 1029 text at its capacity (%s) comes back with %d characters instead of %d" % (tag[5:], len(d1[2][1][-1][1]), len(msg[2][1][-1][1]))
             return None
         if toks[0] == "ROUNDTRIP":
             msg = vt.parse_msg(toks[1])
